@@ -671,6 +671,7 @@ def main(argv):
             "answers constant false for mixed ones. R-LOWBIT: the block is repr(C) with the pointer-aligned count word first, so every payload "
             "address is even whatever the payload's size/alignment (including u8 and ZSTs). Width/niche is checked with C11's compile-time "
             "witnesses. Same-variant value equality is C14."
+            " R-ARMS typed-access clause (any function building a typed borrow/handle from the union's word does so inside the arm of that variant); R-REFCNT-PAIR for the union."
         ),
         rule_text="instances = tag construction/test/strip sites, variant arms, the parity lemma",
         trusted_base=["rustc MIR def-use", "repr(C) layout rules", "expression evaluator analysis/symx.py"],
